@@ -35,22 +35,24 @@ type c17Frame struct {
 }
 
 type c17World struct {
-	c       *Ctx
-	b       *frame.Builder
-	live    []*c17Frame
-	nextF   int
-	nextB   int
-	bufIDs  map[uintptr]int
-	structs map[uintptr]bool
-	links   []*dummyLink
-	steps   []string
-	desc    []string
-	failed  string
-	dropped [][]byte // buffers of refused frames: kept referenced so that their addresses are not reused
+	c        *Ctx
+	b        *frame.Builder
+	live     []*c17Frame
+	nextF    int
+	nextB    int
+	bufIDs   map[uintptr]int
+	structs  map[uintptr]bool
+	links    []*dummyLink
+	steps    []string
+	desc     []string
+	failed   string
+	forced   *c17Frame // when set: the frame the next operations act on
+	forceApx int       // >= 0: the appendix size of the next SetAppendixData
+	dropped  [][]byte  // buffers of refused frames: kept referenced so that their addresses are not reused
 }
 
 func newC17World(c *Ctx) *c17World {
-	w := &c17World{c: c, b: frame.NewFrameBuilder(), nextF: 1, nextB: 1, bufIDs: map[uintptr]int{}, structs: map[uintptr]bool{}}
+	w := &c17World{c: c, b: frame.NewFrameBuilder(), nextF: 1, nextB: 1, bufIDs: map[uintptr]int{}, structs: map[uintptr]bool{}, forceApx: -1}
 	for i := 1; i <= 3; i++ {
 		w.links = append(w.links, &dummyLink{id: i})
 	}
@@ -182,7 +184,38 @@ func (w *c17World) pickLive() *c17Frame {
 	if len(w.live) == 0 {
 		return nil
 	}
+	if w.forced != nil {
+		for _, lf := range w.live {
+			if lf == w.forced {
+				return lf
+			}
+		}
+	}
 	return w.live[w.c.Rng.IntN(len(w.live))]
+}
+
+// opShrinkReleaseReuse: a frame's appendix grows inside its buffer, shrinks again, the frame is
+// released and the buffer is handed to the next frames of that size class: what the long appendix
+// left behind the frame's final end must not be visible to them.
+func (w *c17World) opShrinkReleaseReuse() {
+	lf := w.pickLive()
+	if lf == nil {
+		return
+	}
+	w.forced, w.forceApx = lf, 120+w.c.Rng.IntN(120)
+	w.opSetApx()
+	if w.failed == "" {
+		w.forceApx = w.c.Rng.IntN(12)
+		w.opSetApx()
+	}
+	w.forceApx = -1
+	if w.failed == "" {
+		w.opRelease()
+	}
+	w.forced = nil
+	for k := 0; k < 2 && w.failed == ""; k++ {
+		w.opParse()
+	}
 }
 
 // sizeNear returns a message size so that offset+frame+overhead lands near a tier boundary.
@@ -518,6 +551,9 @@ func (w *c17World) opSetApx() {
 	if !c.Thorough() && n > 4000 {
 		n = 1000 + c.Rng.IntN(3000)
 	}
+	if w.forceApx >= 0 {
+		n = w.forceApx
+	}
 	apx := randBytes(c, n)
 	before := w.observeAll()
 	oldPtr := psPtr(lf.f)
@@ -635,6 +671,10 @@ func runC17(c *Ctx) error {
 				}
 				w.opReply()
 				c.Count("op:reply")
+			case r < 66 && k >= 2:
+				w.opShrinkReleaseReuse()
+				released, reused = true, true
+				c.Count("op:shrink-release-reuse")
 			case r < 78:
 				w.opSetApx()
 				if cloned {
